@@ -375,27 +375,27 @@ func TestVerifC11ExpiryRace(t *testing.T) {
 			dropped += 1 - len(job.wrote)
 		}
 		// a leak is permanent, so waiting cannot hide one; it only keeps a busy machine from raising a false alarm
-		busy := func() bool {
-			if ch.VerifDedupInFlight() != 0 {
-				return true
+		// "At rest" is reached when one reading finds nothing held. A leak is permanent, so polling for that reading
+		// cannot hide one; detached helpers (probes, address lookups) may still start and finish afterwards, which is
+		// why a second reading is never taken.
+		busy := func() string {
+			if n := ch.VerifDedupInFlight(); n != 0 {
+				return fmt.Sprintf("%d question(s) still have a registered resolution leader", n)
 			}
-			for _, v := range h.VerifSlots() {
+			for k, v := range h.VerifSlots() {
 				if v != 0 {
-					return true
+					return fmt.Sprintf("%d %s slot(s) are held", v, k)
 				}
 			}
-			return false
+			return ""
 		}
-		for i := 0; i < 1200 && busy(); i++ { // abandoned upstream attempts run into their 2 s network timeout
+		held := busy()
+		for i := 0; i < 1600 && held != ""; i++ { // abandoned upstream attempts run into their 2 s network timeout
 			time.Sleep(5 * time.Millisecond)
+			held = busy()
 		}
-		if n := ch.VerifDedupInFlight(); n != 0 {
-			rt.Fatalf("every call has returned, yet %d question(s) still have a registered resolution leader (requests arrived with 0-400us of their query timeout left)", n)
-		}
-		for k, v := range h.VerifSlots() {
-			if v != 0 {
-				rt.Fatalf("every call has returned, yet %d %s slot(s) are held", v, k)
-			}
+		if held != "" {
+			rt.Fatalf("8 s after every call returned, %s (requests arrived with 0-400us of their query timeout left)", held)
 		}
 		vfstat.Eval(U, 1)
 		if served > 0 && dropped > 0 {
